@@ -4,6 +4,7 @@ package saml
 
 import (
 	"net/http"
+	"net/url"
 	"os"
 	"strconv"
 	"time"
@@ -55,6 +56,19 @@ func Harness_C05_validate() {
 	ar := &AuthnRequest{}
 	verifHavoc("ar", ar)
 	req := &IdpAuthnRequest{IDP: idp, Now: now, RequestBuffer: verifMarshalXML(ar)}
+	if verifChoose("http.request", 2) == 1 {
+		// the request as received over HTTP: the Host header is whatever the sender wrote
+		// (the IdP's own name or another one), the SSO URL a concrete one
+		u, perr := url.Parse("https://idp.example.com/saml/sso")
+		if perr != nil {
+			return
+		}
+		idp.SSOURL = *u
+		hr := verifRequest("GET", "https://idp.example.com/saml/sso", nil, nil)
+		hr.Host = []string{"idp.example.com", "idp.other-tenant.example", "sp.example.net:8443"}[verifChoose("http.host", 3)]
+		req.HTTPRequest = hr
+		verifReach("received-over-http")
+	}
 
 	err := req.Validate()
 	if err != nil {
@@ -141,6 +155,19 @@ func Harness_C09_idpvalidate() {
 	ar := &AuthnRequest{}
 	verifHavoc("ar", ar)
 	req := &IdpAuthnRequest{IDP: idp, Now: now, RequestBuffer: verifMarshalXML(ar)}
+	if verifChoose("http.request", 2) == 1 {
+		// the request as received over HTTP: the Host header is whatever the sender wrote
+		// (the IdP's own name or another one), the SSO URL a concrete one
+		u, perr := url.Parse("https://idp.example.com/saml/sso")
+		if perr != nil {
+			return
+		}
+		idp.SSOURL = *u
+		hr := verifRequest("GET", "https://idp.example.com/saml/sso", nil, nil)
+		hr.Host = []string{"idp.example.com", "idp.other-tenant.example", "sp.example.net:8443"}[verifChoose("http.host", 3)]
+		req.HTTPRequest = hr
+		verifReach("received-over-http")
+	}
 	_ = req.Validate()
 	verifReach("returned")
 }
